@@ -42,7 +42,7 @@ func c12Start() (*c12Server, error) {
 
 // c12Alive: the process answers a PING on a brand-new connection.
 func (s *c12Server) alive() bool {
-	c, err := net.DialTimeout("tcp", fmt.Sprintf("127.0.0.1:%d", s.port), 2*time.Second)
+	c, err := net.DialTimeout("tcp", fmt.Sprintf("127.0.0.1:%d", s.port), 10*time.Second)
 	if err != nil {
 		return false
 	}
@@ -99,7 +99,7 @@ func checkC12(ctx *Ctx) {
 			return
 		}
 		for k := 0; k < per; k++ {
-			if ctx.NViolations() >= 4 {
+			if ctx.NReports() >= 4 {
 				c.Close()
 				return // enough evidence: a broken framing layer would otherwise cost one watchdog per stream
 			}
@@ -147,7 +147,7 @@ func checkC12(ctx *Ctx) {
 				}
 				okx := c12Exchange(ctx, srv, &c, "hostile-name", [][]string{argv, {"PING"}, {"ECHO", "one"}}, nil, cs)
 				c.Close()
-				if !okx || ctx.NViolations() >= 4 {
+				if !okx || ctx.NReports() >= 4 {
 					return
 				}
 			}
@@ -179,7 +179,7 @@ func checkC12(ctx *Ctx) {
 			val := strings.Repeat("v", n)
 			okx := c12Exchange(ctx, srv, &c, "reply-size", [][]string{{"SET", "size:k", val}, {"GET", "size:k"}, {"PING"}, {"MGET", "size:k", "size:k"}, {"ECHO", val}, {"PING"}}, nil, si)
 			c.Close()
-			if !okx || ctx.NViolations() >= 4 {
+			if !okx || ctx.NReports() >= 4 {
 				return
 			}
 		}
@@ -191,7 +191,7 @@ func checkC12(ctx *Ctx) {
 			continue
 		}
 		ctx.SetCurrent(fmt.Sprintf("C12 pipeline %d", i))
-		if ctx.NViolations() >= 4 || !c12Pipeline(ctx, srv, i) {
+		if ctx.NReports() >= 4 || !c12Pipeline(ctx, srv, i) {
 			return
 		}
 	}
@@ -201,7 +201,7 @@ func checkC12(ctx *Ctx) {
 			continue
 		}
 		ctx.SetCurrent(fmt.Sprintf("C12 broken frame %d", i))
-		if ctx.NViolations() >= 4 || !c12Broken(ctx, srv, i) {
+		if ctx.NReports() >= 4 || !c12Broken(ctx, srv, i) {
 			return
 		}
 	}
@@ -297,7 +297,7 @@ func c12Exchange(ctx *Ctx, srv *c12Server, cp **Client, lane string, cmds [][]st
 		got := 0
 		var first resp.Value
 		for {
-			v, raw, err := c.Read(3 * time.Second)
+			v, raw, err := c.Read(12 * time.Second)
 			if err != nil {
 				if !srv.alive() {
 					ctx.Violate(Violation{Kind: "down", Lane: lane, What: "the server stopped answering PING on a new connection after: " + describe(),
@@ -436,7 +436,7 @@ func c12Pipeline(ctx *Ctx, srv *c12Server, i int) bool {
 	for k := range cmds {
 		got := 0
 		for {
-			v, raw, err := c.Read(3 * time.Second)
+			v, raw, err := c.Read(12 * time.Second)
 			if err != nil {
 				if !srv.alive() {
 					ctx.Violate(Violation{Kind: "down", Lane: "pipeline", What: "the server stopped answering PING after a pipeline", Case: map[string]interface{}{"commands": cmds}, Key: "c12|down"})
